@@ -937,20 +937,29 @@ theorem tr_fetchBodyAtt (fuel dp : Nat) (hd : dp < maxListDepth) : Tr' (fetchBod
   show b.depth ≤ maxListDepth
   omega
 
-theorem tr_fetchAtt (fuel dp seq : Nat) (hd : dp < maxListDepth) : Tr' (fetchAtt fuel dp true seq) := by
-  unfold fetchAtt
+theorem tr_noSection (name : Bytes) : Tr' (noSection name) := by
+  unfold noSection; tr_auto [tr_special]
+
+theorem tr_fetchAttData (fuel dp : Nat) (name : Bytes) (hd : dp < maxListDepth) :
+    Tr' (fetchAttData fuel dp true name) := by
+  unfold fetchAttData
   have hE := tr_readEnvelope fuel dp hd
   have hB := tr_fetchBodyAtt fuel dp hd
-  have hlast : Tr' (modifyCS fun cs =>
-      let cs := { cs with cur := { cs.cur with numAtts := cs.cur.numAtts + 1 } }
-      if cs.cur.numAtts > 32 then handleMsg seq cs else cs) := by
-    refine tr_modifyCS _ ?_
-    intro cs hcs
-    simp only []
-    split
-    · exact good_handleMsg seq _ (good_same cs _ hcs rfl rfl rfl rfl rfl rfl)
-    · exact good_same cs _ hcs rfl rfl rfl rfl rfl rfl
-  tr_auto [tr_expectSP, tr_special, tr_flagLoop, tr_setCur_keep _ (fun _ => rfl), tr_expectNumber64, tr_expectNumber', tr_expectSpecial, tr_expectModSeq]
+  tr_auto [tr_expectSP, tr_special, tr_flagLoop, tr_setCur_keep _ (fun _ => rfl), tr_expectNumber64, tr_expectNumber', tr_expectSpecial, tr_expectModSeq, tr_noSection]
+
+theorem tr_bumpAtts (seq : Nat) : Tr' (bumpAtts seq) := by
+  unfold bumpAtts
+  refine tr_modifyCS _ ?_
+  intro cs hcs
+  simp only []
+  split
+  · exact good_handleMsg seq _ (good_same cs _ hcs rfl rfl rfl rfl rfl rfl)
+  · exact good_same cs _ hcs rfl rfl rfl rfl rfl rfl
+
+theorem tr_fetchAtt (fuel dp seq : Nat) (hd : dp < maxListDepth) : Tr' (fetchAtt fuel dp true seq) := by
+  unfold fetchAtt
+  have h1 := fun name => tr_fetchAttData fuel dp name hd
+  tr_auto [h1, tr_bumpAtts seq]
 
 theorem tr_handleFetch (fuel seq : Nat) (hW : seq < NumSet.W) : Tr' (handleFetch fuel {} seq) := by
   unfold handleFetch
